@@ -90,7 +90,7 @@ class C19(Prop):
     theorems = ["EaselModel.Props.C19." + t for t in (
         "keyhash_refines_partial", "keyhash_refines_cstrings", "keyhash_refines_mixed", "keyhash_nul_store_answer", "keyhash_string_paths", "keyhash_dump", "keyhash_cstr_of_nulfree", "keyhash_never_faults_partial", "keyhash_refines_jenkins_partial", "keyhash_ops_partial", "keyhash_upsize", "keyhash_fields_in_range_partial", "jenkins_in_range",
         "keyhash_embedded_nul_counterexample", "spec_store", "spec_lookup", "spec_get",
-        "keyhash_refines", "keyhash_never_faults", "keyhash_refines_jenkins", "keyhash_ops", "keyhash_key_length", "keyhash_get_cstring", "keyhash_string_paths_repaired", "keyhash_dump_repaired", "keyhash_fields_in_range", "keyhash_embedded_nul_repaired", "keyhash_at_bound", "keyhash_below_bound", "keyhash_at_bound_default", "keyhash_kalloc_at_bound", "keyhash_hashsize_at_bound",
+        "keyhash_refines", "keyhash_never_faults", "keyhash_refines_jenkins", "keyhash_ops", "keyhash_key_length", "keyhash_get_cstring", "keyhash_string_paths_repaired", "keyhash_dump_repaired", "keyhash_fields_in_range", "keyhash_embedded_nul_repaired", "keyhash_at_bound", "keyhash_below_bound", "keyhash_at_bound_default", "keyhash_kalloc_at_bound", "keyhash_hashsize_at_bound", "keyhash_growth_in_tree", "keyhash_growth_guarded_never_overflows",
         "heap_history", "heap_insert", "heap_extract", "heap_extract_null", "heap_extract_null_unguarded_faults", "heap_sorts", "heap_drain", "heap_validate", "heap_nalloc_in_range", "heap_grow", "heap_duplicates",
         "rb_insert", "rb_history", "rb_wf_iff", "rb_height", "rb_lookup", "rb_sorted_linked", "rb_linked_is_reverse_inorder", "rb_lookup_history", "rb_pool_never_twice", "rb_ptr_lookup", "rb_convert_doubly_linked", "rb_convert_null", "rb_convert_passes_list_test", "rb_ops_history", "rb_ptr_descend", "rb_ptr_insert_duplicate", "rb_ptr_insert_black_parent", "rb_ptr_insert_first", "rb_pool_give_take", "rb_ptr_insert_refines", "rb_ptr_rebalance_refines", "rb_ptr_insert_wf", "rb_ptr_history", "rb_ptr_history_converts",
         "stack_history", "stack_history_shuffles", "stack_no_fault", "stack_threads_atomic", "stack_threads_conservation", "stack_threads_eod_only_after_release", "stack_threads_mutex_progress", "stack_threads_waiting_pop_completes", "stack_threads_stuck_only_when_all_asleep", "stack_threads_completes_after_release", "stack_push_pop", "stack_pop_empty", "stack_lifo", "stack_popAll_unfold", "stack_discardTopN", "stack_discardSelected",
@@ -141,10 +141,37 @@ class C19(Prop):
             self._rep_src = ctx.src
         return self._rep
 
+    def growth_guarded(self, ctx):
+        """True when esl_keyhash_Store() of the working tree refuses to double `kh->salloc` AND `kh->kalloc` past INT_MAX (the
+        repair of C19:keyhash:salloc-int-overflow: a test against INT_MAX / 2 in front of each doubling), False when the
+        doublings are unguarded. Selects which variant of `Keyhash.growC` / `doubleC` the `…_in_tree` theorems speak about."""
+        import os, re
+        txt = open(os.path.join(ctx.src, "esl_keyhash.c"), errors="replace").read()
+        txt = re.sub(r"/\*.*?\*/", " ", txt, flags=re.S)
+        m = re.search(r"\besl_keyhash_Store\s*\([^;{]*\)\s*\{(.*?)\n\}", txt, flags=re.S)
+        body = m.group(1) if m else ""
+        def guarded(field):
+            d = re.search(r"kh->%s\s*(\*=\s*2|=\s*kh->%s\s*\*\s*2|\+=\s*kh->%s)" % (field, field, field), body)
+            if not d: return False
+            g = re.search(r"kh->%s\s*>=?\s*\(?\s*INT_MAX\s*/\s*2" % field, body[:d.start()])
+            return bool(g)
+        return guarded("salloc") and guarded("kalloc")
+
     def generated(self, ctx):
         rep = self.repaired(ctx)
         ctx.stats["keyhash_variant_in_tree"] = "repaired (key_length/key_matches)" if rep else "unrepaired (esl_memstrcmp/strcmp)"
-        return {"EaselModel/Containers/KeyhashVariant.lean": (
+        grd = self.growth_guarded(ctx)
+        ctx.stats["keyhash_growth_variant_in_tree"] = ("guarded (eslEMEM before salloc/kalloc would pass INT_MAX)" if grd else
+                                                       "unguarded (`salloc *= 2` / `kalloc *= 2` overflow int once the arena needs > 2^30 bytes / at 2^30 keys; outside the property's quantifier, reported as a finding only)")
+        return {"EaselModel/Containers/KeyhashGrowthVariant.lean": (
+            "/-! GENERATED by props/c19.py (`SPEC.generated`) from the working tree's esl_keyhash.c on every run — do not edit.\n"
+            "Which of the two modelled variants of the allocation growth in `esl_keyhash_Store` the tree contains (`KeyhashInt32.lean`):\n"
+            "`false`: `kh->salloc *= 2` / `kh->kalloc *= 2` unguarded (signed overflow at the bound);\n"
+            "`true` : each doubling is preceded by `if (… > INT_MAX / 2) ESL_XEXCEPTION(eslEMEM, …)`. -/\n"
+            "namespace EaselModel.Containers.Keyhash\n"
+            "def growthGuarded : Bool := %s\n"
+            "end EaselModel.Containers.Keyhash\n" % ("true" if grd else "false")),
+                "EaselModel/Containers/KeyhashVariant.lean": (
             "/-! GENERATED by props/c19.py (`SPEC.generated`) from the working tree's esl_keyhash.c on every run — do not edit.\n"
             "Which of the two modelled variants of the key comparison the tree contains:\n"
             "`false`: stored keys are compared with `esl_memstrcmp` / `strcmp` and re-hashed as C strings (`Keyhash.lean`);\n"
@@ -1184,7 +1211,8 @@ class C19(Prop):
                 "with_theorem": sum(1 for r in table if r["theorems"]), "uncovered": uncovered, "table": table}
 
     def extra_evidence(self, ctx):
-        ev = {"keyhash_variant_in_tree": ctx.stats.get("keyhash_variant_in_tree")}
+        ev = {"keyhash_variant_in_tree": ctx.stats.get("keyhash_variant_in_tree"),
+              "keyhash_growth_variant_in_tree": ctx.stats.get("keyhash_growth_variant_in_tree")}
         try:
             ev["api_coverage"] = self.api_coverage(ctx)
         except Exception as e:                      # a coverage table must never turn a passing check into a failing one
